@@ -3,6 +3,7 @@
 #include "psc/error.h"
 #include "nodes/loop/control.h"
 #include "nodes/loop/for.h"
+#include "verif_hook.h"
 
 ForLoopNode::ForLoopNode(const Token &token, const Token &identifier, Node &start, Node &stop, Node *step, PSC::Block *block)
     : Node(token),
@@ -59,6 +60,9 @@ std::unique_ptr<NodeResult> ForLoopNode::evaluate(PSC::Context &ctx) {
         (stepNegative && iteratorValue.value >= stopValue) || (!stepNegative && iteratorValue.value <= stopValue);
         iteratorValue.value += stepValue
     ) {
+#ifdef PSEUDOENGINE2_VERIF
+        if (verif::step()) throw PSC::RuntimeError(token, ctx, "VERIF budget exhausted: steps");
+#endif
         try {
             block->run(ctx);
         } catch (BreakErrSignal&) {
